@@ -114,6 +114,21 @@ pub fn c16(em: &mut Emit, thorough: bool, seed: u64) {
         let l: Vec<AeElem> = (0..k).map(|_| rng.pick(&elems).clone()).collect();
         emit_c16(em, &l, rng.below(3) as u8);
     }
+    // long lists: the element that decides comes last (or first), after many that do not
+    let filler: Vec<AeElem> = elems.iter().filter(|e| e.coding != "gzip" && e.coding != "identity" && e.coding != "*").cloned().collect();
+    for total in [16usize, 63, 64, 65, 66, 128, 129, 300, 1000] {
+        for decisive in [("gzip", ""), ("gzip", "0"), ("gzip", "0.001"), ("*", "0"), ("identity", "0"), ("identity", "1"), ("*", "1")] {
+            let d = elems.iter().find(|e| e.coding == decisive.0 && e.weight == (if decisive.1.is_empty() { None } else { Some(decisive.1) })).cloned();
+            let Some(d) = d else { continue };
+            for first in [false, true] {
+                let mut l: Vec<AeElem> = (0..total - 2).map(|_| rng.pick(&filler).clone()).collect();
+                // a second element of interest somewhere in the middle
+                l.insert(total / 2, rng.pick(&elems).clone());
+                if first { l.insert(0, d.clone()) } else { l.push(d.clone()) }
+                emit_c16(em, &l, rng.below(3) as u8);
+            }
+        }
+    }
     // call histories: should_gzip(x), then should_gzip(y); the outcome for y is the case
     let hv = history_values();
     for (x, _) in &hv {
@@ -148,6 +163,9 @@ pub fn c16(em: &mut Emit, thorough: bool, seed: u64) {
 struct PartsOrReq {
     method: http::Method,
     ae: Option<Vec<u8>>,
+    /// further Accept-Encoding header LINES after the first (`should_gzip`, and so the model,
+    /// read the first line only)
+    ae_more: Vec<Vec<u8>>,
     as_parts: bool,
 }
 
@@ -206,6 +224,9 @@ fn build_and_drain(
     std::panic::catch_unwind(std::panic::AssertUnwindSafe(|| {
         let mut b = http::Request::builder().method(r.method.clone()).uri("/");
         if let Some(v) = &r.ae {
+            b = b.header("accept-encoding", HeaderValue::from_bytes(v).unwrap());
+        }
+        for v in &r.ae_more {
             b = b.header("accept-encoding", HeaderValue::from_bytes(v).unwrap());
         }
         let req = b.body(()).unwrap();
@@ -310,12 +331,21 @@ pub fn c17(em: &mut Emit, thorough: bool, seed: u64) {
                     if *history && !((level == 6 && mi == 0 && !as_parts) || (level == 9 && mi == 1 && as_parts)) {
                         continue;
                     }
+                    case_no += 1;
+                    // every fifth case with a first line: one or two more Accept-Encoding lines
+                    // that would decide otherwise
+                    let ae_more: Vec<Vec<u8>> = if ae.is_some() && case_no % 5 == 0 {
+                        let other: &[u8] = if *want == Some(true) { b"gzip;q=0, identity" } else { b"gzip" };
+                        if case_no % 10 == 0 { vec![other.to_vec(), b"*;q=0.5".to_vec()] } else { vec![other.to_vec()] }
+                    } else {
+                        vec![]
+                    };
                     let r = PartsOrReq {
                         method: http::Method::from_bytes(m.as_bytes()).unwrap(),
                         ae: ae.clone(),
+                        ae_more,
                         as_parts,
                     };
-                    case_no += 1;
                     let calls = call_sequence(chunk, level, case_no);
                     let line = format!(
                         "SBUILD head={} ae={} calls={}",
